@@ -92,7 +92,10 @@ class RF24Network(RF24NetworkRoutingOnly):
         self, frame: RF24NetworkFrame, traffic_direct: int = AUTO_ROUTING
     ) -> bool:
         """Helper to do prep work for _write_to_pipe(); like to TMRh20's _write()"""
-        self.frame_buf = frame
+        # make copy not reference: frames received while waiting for a NETWORK_ACK are
+        # unpacked into frame_buf and must not overwrite the caller's frame
+        self.frame_buf = RF24NetworkFrame()
+        self.frame_buf.unpack(frame.pack())
         if traffic_direct != AUTO_ROUTING:
             # Payload is multicast to the first node, and routed normally to the next
             send_type = TX_LOGICAL
